@@ -741,6 +741,19 @@ def cli_policy_run(text, port, as_json):
     return p.returncode, p.stdout, p.stderr
 
 
+def cli_policy_multi(text, ports, threads=1):
+    """ssh-audit.py -P <policy> -T <targets> --threads n -j: one policy, several targets, one process."""
+    with tempfile.TemporaryDirectory() as d:
+        pf, tf = os.path.join(d, 'p.txt'), os.path.join(d, 't.txt')
+        with open(pf, 'w', encoding='utf-8') as f:
+            f.write(text)
+        with open(tf, 'w') as f:
+            f.write(''.join('127.0.0.1:%d\n' % p for p in ports))
+        cmd = [common.PY, os.path.join(common.REPO, 'ssh-audit.py'), '-P', pf, '--skip-rate-test', '-t', '5', '--threads', str(threads), '-j', '-T', tf]
+        p = subprocess.run(cmd, env=common.BASE_ENV, capture_output=True, text=True, timeout=180)
+    return p.returncode, p.stdout, p.stderr
+
+
 def wiring_inprocess(ctx, orc, pol, peer, res, banner_str):
     """evaluate_policy(): returned bool, text and JSON output follow the verdict of Policy.evaluate."""
     from ssh_audit import ssh_audit as SA
@@ -933,6 +946,37 @@ def run(ctx):
         if not ok:
             orc.viol('wiring/cli-exit-status/%s' % ('passed' if ret else 'failed'), 'ssh-audit -P exits %d / prints %r for a pair whose in-process verdict is passed=%r errors=%r; stderr %r' % (
                 rc, out[-300:], ret, [e['mismatched_field'] for e in errs], err[-200:]), pol2, peer)
+    # one policy over several targets in one run (-T): each target's verdict and error list are its own - those of the same target audited alone
+    n_multi = 0
+    for trial in range(3 if q else 24):
+        ren = lambda l: ['x-' + x for x in l]
+        base = new_peer(banner=BANNERS[0], banner_kind='obj', kex=ren(['ka', 'kb']), key=ren(['ha']), enc=ren(['ea', 'eb']), mac=ren(['ma']), compression=['none'])
+        drift1 = dict(base, enc=ren(['eb', 'ea']))
+        drift2 = dict(base, mac=ren(['mb']), kex=ren(['ka']))
+        pol = new_pol(kex=list(base['kex']), host_keys=list(base['key']), ciphers=list(base['enc']), macs=list(base['mac']), compressions=['none'])
+        text = policy_text(pol)
+        order = [[drift1, base], [base, drift1, base], [drift1, drift2, base], [drift2, base, drift1]][trial % 4]
+        threads = 1 if trial % 2 == 0 else len(order)
+        srvs = [ScriptedPeer(pr['banner'], pr) for pr in order]
+        try:
+            rc, out, err = cli_policy_multi(text, [sv.port for sv in srvs], threads)
+        finally:
+            for sv in srvs:
+                sv.close()
+        n_multi += 1
+        orc.n += 1
+        try:
+            arr = {'%s:%d' % (el['host'], el['port']): el for el in json.loads(out)}
+        except (ValueError, KeyError, TypeError):
+            orc.viol('wiring/multi-target/unparsable', 'ssh-audit -P -T -j prints %r (stderr %r)' % (out[-300:], err[-200:]), pol, base)
+            continue
+        for sv, pr in zip(srvs, order):
+            ret, errs, estr, bstr = impl_eval(mk_policy_fields(pol), pr)
+            el = arr.get('127.0.0.1:%d' % sv.port)
+            if el is None or el.get('passed') != ret or el.get('errors') != errs:
+                orc.viol('wiring/multi-target/verdict-not-own', 'in a -P -T run over %d targets (threads=%d) a target whose own verdict is passed=%r errors=%r is reported as passed=%r errors=%r' % (
+                    len(order), threads, ret, [e['mismatched_field'] for e in errs], (el or {}).get('passed'), [e.get('mismatched_field') for e in (el or {}).get('errors', [])]), pol, pr)
+    hist['cli -P -T'] = n_multi
     ctx.extra['op_histogram'] = hist
     ctx.extra['cli_policy_runs'] = n_cli
     ctx.correspond('policy', IMPORTS, preamble, terms, lambda i: descs[i])
